@@ -15,7 +15,8 @@ LEVEL_TEXT = ("Every field of the three state replies and the login reply is gen
               "loopback TCP, and compared field by field with the returned response object; the bulk part also feeds the "
               "response dataclasses directly. Sampling; no proof for unseen values.")
 RULE = ("case = (reply kind, field values, noise salt, session); non-trivial = all multi-byte fields have pairwise different "
-        "bytes (so endianness/offset slips are visible); distinct by the field tuple.")
+        "bytes (so endianness/offset slips are visible); distinct by the field tuple."
+        ' Also: sequences of 2..8 replies of different kinds decoded in one process (mixed), 2..6 queries on one connection with some replies cut short (api-history), host zones other than UTC, field values 0xF0FE/0xFEF0, non-ASCII remote ids of <= 8 bytes.')
 ASSUMPTIONS = [
     "reply layout of DESIGN appendix A.2, pinned by get_state_response / get_breeze_state / get_shutter_state_response / login captures",
     "amps = watts/220 within 0.05 and rendered to one decimal; temperature = tenths/10 within 1e-9",
